@@ -40,15 +40,17 @@ MANIFEST = {
             'gives i = C dv/dt for t > 0 and v(0+) = v0 + impulse/C; time_law_L with mutual terms; continuity_C/L; per-class transfer of '
             'the physical time-domain semantics to the s-domain semantics that C01 proves of the regenerated stamps, and at netlist level '
             '(ode_from_sdomain): the inverse transforms of any ivp/s MNA solution satisfy KCL, every ODE and instantaneous law; '
-            'causal_zero; switch_handover for the specification of convert_IVP and agreement of the source-extracted switch logic with it. '
+            'ode_from_mna_wf discharges the coupled-inductor condition from the kind invariant; causal_zero_gen with the causality flags translated from '
+            'Analysis.__init__ and MNA._solve; switch_handover for the specification of convert_IVP; the switch comparisons AND the loop of convert_IVP '
+            'are translated from the source on every run and proved to perform exactly the specification\'s hand-overs (convert_loop_ok). '
             'Each run ties this to the code: Lcapy\'s time-domain results are parsed to the normal form and compared inside Coq with the '
             'inverse of its own certified s-domain solution, and the laws are checked on those signals by the verified checker.',
     'note': 'Trusted: Coq kernel/vm_compute; specification coq/theory/ExpPoly.v (signals, D, L) and TimeDomCircuit.v (textbook laws); the '
-            'sympy-based parsers in tools/impl_timedom.py; translators tools/tr_stamps.py, tools/tr_switch.py. Partial: poles are found by '
+            'sympy-based parsers in tools/impl_timedom.py; translators tools/tr_stamps.py, tools/tr_switch.py, tools/tr_analysis.py. Partial: poles are found by '
             'sympy (oracle, accepted only through the verified certificate check pf_check), so only Gaussian-rational natural frequencies '
             'are compared inside Coq; symbolic element values are covered by the theorems only. ode_from_mna excludes dc analyses and non-constant '
-            'gains; coupled inductors with initial currents are covered for the ivp kind. The switch theorems are about '
-            'the specification and the source-extracted comparisons; the loop of convert_IVP is tied by an instrumented run, not translated.',
+            'gains; coupled inductors with initial currents are covered for the ivp kind (k_ic_ok_wf). initialize()/C._initialize/L._initialize and the '
+            'SWspdt arm stay hand-tied by the instrumented run and the reference initial conditions; UnilateralInverseTransformer.make is C10\'s hand model.',
     'technique': 'Coq proof over an abstract signal algebra + per-class transfer to the C01 stamp semantics + in-Coq correspondence '
                  'evaluation with verified per-case law checking + exact sympy search oracle',
 }
@@ -925,7 +927,7 @@ def switch_obs(case, wr):
     if 'netlist' not in wr:
         return None
     o = {'final': cfg_of(wr['netlist'], idxs), 'after': cfg_of(wr.get('after', []), idxs), 'before': cfg_of(wr.get('before', []), idxs),
-         'times': [Fraction(x).limit_denominator(1 << 20) if '.' not in x else Fraction(x) for x in wr.get('times', [])], 'trace': []}
+         'times': [Fraction(x).limit_denominator(1 << 20) if '.' not in x else Fraction(x) for x in wr.get('times', [])], 'trace': [], 'prov': []}
     for call in wr.get('calls', []):
         if call['call'] == 'initialize' and len(call['args']) >= 2 and isinstance(call['args'][0], list):
             cfg = cfg_of(call['args'][0], idxs)
@@ -934,10 +936,12 @@ def switch_obs(case, wr):
             except (ValueError, ZeroDivisionError):
                 T = None
             o['trace'].append((cfg, T))
+            # does `before` carry initial conditions (is it the previous initial value problem)?
+            o['prov'].append(any(len(l.split()) >= 5 for l in call['args'][0] if l.split()[0] in sw['reactive']))
     return o
 
 
-def switch_coq(i, case, o, have_gen):
+def switch_coq(i, case, o, have_gen, have_loop=False):
     sw = case['switch']
     sws = '[' + '; '.join('Sw %s %s' % ('SWno' if k == 'no' else 'SWnc', qc(a)) for k, a in sw['sws']) + ']'
 
@@ -947,8 +951,12 @@ def switch_coq(i, case, o, have_gen):
         return None
     tr = '[' + '; '.join('(%s, %s)' % (bools(c), qc(T)) for c, T in o['trace']) + ']'
     gens = 'before_cmp_gen after_cmp_gen closed_gen' if have_gen else 'before_spec after_spec closed'
-    return '(%d%%nat, sw_items %s %s %s [%s] %s %s %s %s)' % (
-        i, gens, sws, qc(sw['t']), '; '.join(qc(x) for x in o['times']), bools(o['final']), tr, bools(o['after']), bools(o['before']))
+    txt = 'sw_items %s %s %s [%s] %s %s %s %s' % (
+        gens, sws, qc(sw['t']), '; '.join(qc(x) for x in o['times']), bools(o['final']), tr, bools(o['after']), bools(o['before']))
+    if have_loop:
+        tr3 = '[' + '; '.join('(%s, %s, %s)' % (bools(c), qc(T), bl(f)) for (c, T), f in zip(o['trace'], o['prov'])) + ']'
+        txt = '(%s) ++ sw_loop_items loop_gen %s %s %s %s' % (txt, sws, qc(sw['t']), bools(o['final']), tr3)
+    return '(%d%%nat, %s)' % (i, txt)
 
 
 def switch_oracle(case, wr, o, tr_sw):
@@ -1015,7 +1023,7 @@ def switch_oracle(case, wr, o, tr_sw):
     return bad
 
 
-def switch_v(tr_sw):
+def switch_v(tr_sw, loop_ok=False):
     return ('(* GENERATED by checks/c02.py from the translation of SW._replace_switch (lcapy/mnacpts.py). Do not edit. *)\n'
             'Require Import LT.FieldSec LT.TimeDomSwitch Gen.SwitchGen.\n'
             '(* the comparisons and the wire/open choice of the CURRENT source are the specification\'s *)\n'
@@ -1032,8 +1040,45 @@ def switch_v(tr_sw):
             'Proof. intros t a. unfold before_cmp_gen. cmp_cases t a. Qed.\n'
             'Theorem replace_before_ok : forall t sws, map (fun s => closed_gen (sw_kind s) (before_cmp_gen t (sw_time s))) sws = cfg_before sws t.\n'
             'Proof. intros t sws. unfold cfg_before, repl. apply map_ext. intros s. rewrite closed_ok, before_cmp_ok. reflexivity. Qed.\n'
+            '%s'
             'Print Assumptions closed_ok. Print Assumptions after_cmp_ok. Print Assumptions replace_after_ok. Print Assumptions before_cmp_ok. Print Assumptions replace_before_ok.\n'
-            % tr_sw.src_before.replace('*)', '* )'))
+            % (tr_sw.src_before.replace('*)', '* )'),
+               ('(* the loop of convert_IVP as translated from the CURRENT lcapy/netlist.py performs exactly the specification\'s hand-overs:\n'
+                '   configuration of `before`, evaluation time, provenance of the initial conditions, final configuration - for every\n'
+                '   list of switches, every list of instants and every query time *)\n'
+                'Theorem convert_loop_ok : forall sws times t, times <> [] ->\n'
+                '  fst (run_loop loop_gen sws times t) = trace_spec3 sws times t /\\ ccfg (snd (run_loop loop_gen sws times t)) = final_cfg sws times t.\n'
+                'Proof. exact run_loop_spec. Qed.\n'
+                'Print Assumptions convert_loop_ok.\n') if loop_ok else ''))
+
+
+def analysis_v():
+    return ('(* GENERATED by checks/c02.py from the translation of Analysis.__init__ (lcapy/analysis.py) and MNA._solve (lcapy/mna.py). Do not edit. *)\n'
+            'Require Import LT.FieldSec LT.PolyQ LT.QcI LT.ExpPoly LT.ILT LT.ILTCorr LT.TimeDom LT.TimeDomSwitch LT.TimeDomCorr Gen.AnalysisGen.\n'
+            '(* the circuit is treated as causal exactly when every independent source is causal and every initial condition is zero *)\n'
+            'Theorem analysis_causal_ok : forall src zic, analysis_causal_gen src zic = analysis_causal src zic.\n'
+            'Proof. intros src zic. unfold analysis_causal_gen, analysis_causal. cbv zeta. destruct (forallb (fun b => b) src); destruct (forallb (fun b => b) zic); reflexivity. Qed.\n'
+            '(* the assumptions handed to the inverse transform: a causal circuit is transformed as causal whatever the ac/dc flags,\n'
+            '   a circuit that is neither ac, dc nor causal is not *)\n'
+            'Theorem mna_causal_wins : forall ac dc, eff_causal None (mna_kw_gen ac dc true) = true.\n'
+            'Proof. intros [] []; reflexivity. Qed.\n'
+            'Theorem mna_unknown_not_causal : eff_causal None (mna_kw_gen false false false) = false.\n'
+            'Proof. reflexivity. Qed.\n'
+            '(* zero initial state and causal sources: with the flags of the CURRENT source the model of the time-domain conversion\n'
+            '   puts every term under a step - the response is 0 for t < 0; otherwise the delay-free regular part is only claimed for t >= 0 *)\n'
+            'Theorem causal_zero_gen : forall (K : fld) cj B guard (src zic : list bool) (ac dc : bool) const F m,\n'
+            '  (forall b, In b src -> b = true) -> (forall b, In b zic -> b = true) ->\n'
+            '  doit_model K cj B guard (eff_causal None (mna_kw_gen ac dc (analysis_causal_gen src zic))) const F = Some m ->\n'
+            '  m_cond m = false /\\ m_u m = szero.\n'
+            'Proof. intros K cj B guard src zic ac dc const F m Hs Hz. rewrite analysis_causal_ok.\n'
+            '  assert (Hc : analysis_causal src zic = true) by (unfold analysis_causal; rewrite andb_true_iff, !forallb_forall; split; assumption).\n'
+            '  rewrite Hc, mna_causal_wins. apply causal_flag. Qed.\n'
+            'Theorem noncausal_cond_gen : forall (K : fld) cj B guard (src zic : list bool) const F m,\n'
+            '  analysis_causal_gen src zic = false ->\n'
+            '  doit_model K cj B guard (eff_causal None (mna_kw_gen false false (analysis_causal_gen src zic))) const F = Some m ->\n'
+            '  (m_cond m = true <-> reg (m_u m) <> []).\n'
+            'Proof. intros K cj B guard src zic const F m Hc. rewrite Hc, mna_unknown_not_causal. apply noncausal_flag. Qed.\n'
+            'Print Assumptions analysis_causal_ok. Print Assumptions mna_causal_wins. Print Assumptions causal_zero_gen. Print Assumptions noncausal_cond_gen.\n')
 
 
 # ------------------------------------------------------------------ classification of circuit failures
@@ -1132,7 +1177,8 @@ def run(tier='quick', replay=None):
             'specification coq/theory/ExpPoly.v (signals Sigma c t^n/n! e^{pt} + impulses, ordinary/distributional derivative Dord/D, L termwise) and '
             'coq/theory/TimeDomCircuit.v (textbook time-domain law of every component class), coq/theory/TimeDomSwitch.v (switch specification)',
             'translators tools/tr_stamps.py (sha256 %s), tools/tr_switch.py (sha256 %s)' % (
-                core.sha256_file(os.path.join(core.VERIF, 'tools', 'tr_stamps.py'))[:16], core.sha256_file(os.path.join(core.VERIF, 'tools', 'tr_switch.py'))[:16]),
+                core.sha256_file(os.path.join(core.VERIF, 'tools', 'tr_stamps.py'))[:16], core.sha256_file(os.path.join(core.VERIF, 'tools', 'tr_switch.py'))[:16])
+            + ', tools/tr_analysis.py (sha256 %s)' % core.sha256_file(os.path.join(core.VERIF, 'tools', 'tr_analysis.py'))[:16],
             'parsers in tools/impl_timedom.py (sympy rewrite(exp)/expand of Lcapy\'s time expressions; decomposition of the s-domain value into delayed rational functions); '
             'the law list built by checks/c02.py from the generator\'s own element values',
             'oracles, not verified: sympy.roots / div / residues (accepted only through the verified pf_check), sympy linear solve inside Lcapy',
@@ -1142,7 +1188,7 @@ def run(tier='quick', replay=None):
                            'a time-domain law is the equality of coefficient maps (normal forms); L_injective_char0 proves that this is the same as equality of the images off a finite set',
                            'switch specification assumes time-invariant sources between switching instants (as convert_IVP documents)']
         texts = {}
-        st = {}
+        pst = {}
 
         def prove():
             # 1. translate
@@ -1167,6 +1213,14 @@ def run(tier='quick', replay=None):
             try:
                 tr_sw = TW.SwitchTranslation(core.REPO)
                 texts['SwitchGen.v'] = tr_sw.coq_defs()
+                try:
+                    tr_cv = TW.ConvertTranslation(core.REPO)
+                    texts['SwitchGen.v'] += tr_cv.coq_defs()
+                    pst['loop_ok'] = True
+                    res.extra['translated_convert_IVP'] = {'loop': tr_cv.loop_src, 'first': tr_cv.first, 'next': tr_cv.next, 'after': tr_cv.after, 'strict_break': tr_cv.strict}
+                except (TW.Untranslatable, OSError, SyntaxError) as e:
+                    res.failed_obl.append(('translate_convert_IVP', 'lcapy/netlist.py', str(e)))
+                    res.obligations += 1
                 w.write('SwitchGen.v', texts['SwitchGen.v'])
                 ok, out, secs = core.coqc(w.dir, 'SwitchGen.v')
                 if ok:
@@ -1179,9 +1233,31 @@ def run(tier='quick', replay=None):
                 res.failed_obl.append(('translate_switch', 'lcapy/mnacpts.py', str(e)))
                 res.obligations += 1
                 tr_sw = None
+            an_ok = False
+            try:
+                import tr_analysis as TA
+                ta, tsv = TA.AnalysisTranslation(core.REPO), TA.SolveTranslation(core.REPO)
+                texts['AnalysisGen.v'] = 'Require Import LT.FieldSec LT.PolyQ LT.ExpPoly LT.ILT.\n' + ta.coq_defs() + tsv.coq_defs()
+                w.write('AnalysisGen.v', texts['AnalysisGen.v'])
+                ok, out, secs = core.coqc(w.dir, 'AnalysisGen.v')
+                if ok:
+                    an_ok = True
+                else:
+                    res.failed_obl.append(('AnalysisGen', 'AnalysisGen.v', out[-600:]))
+                    res.obligations += 1
+                res.extra['translated_analysis'] = {'causal': ta.final_src, 'causal_coq': ta.expr, 'assumption_order': tsv.order}
+            except Exception as e:
+                if type(e).__name__ not in ('Untranslatable', 'OSError', 'SyntaxError', 'FileNotFoundError'):
+                    raise
+                res.failed_obl.append(('translate_analysis', 'lcapy/analysis.py, lcapy/mna.py', str(e)))
+                res.obligations += 1
             # 2. prove
             log('prove')
             first = {}
+            if an_ok:
+                texts['C02_analysis.v'] = analysis_v()
+                w.write('C02_analysis.v', texts['C02_analysis.v'])
+                first['C02_analysis.v'] = None
             if stamps_ok:
                 for f in ('C01model.v', 'C01.v'):
                     texts[f] = open(os.path.join(core.VERIF, 'coq', 'props', f)).read()
@@ -1191,7 +1267,7 @@ def run(tier='quick', replay=None):
             w.write('C02.v', texts['C02.v'])
             first['C02.v'] = None
             if sw_gen_ok:
-                texts['C02_switch.v'] = switch_v(tr_sw)
+                texts['C02_switch.v'] = switch_v(tr_sw, pst.get('loop_ok', False))
                 w.write('C02_switch.v', texts['C02_switch.v'])
                 first['C02_switch.v'] = None
             bad = core.gate_text('generated+props', '\n'.join(texts.values()) + open(os.path.join(core.VERIF, 'coq', 'props', 'C02net.v')).read())
@@ -1229,7 +1305,7 @@ def run(tier='quick', replay=None):
                 names = core.obligations_in(open(os.path.join(core.COQ_THEORY, f)).read())
                 res.obligations += len(names)
                 res.discharged += len(names)
-            st.update(tr_sw=tr_sw, sw_gen_ok=sw_gen_ok)
+            pst.update(tr_sw=tr_sw, sw_gen_ok=sw_gen_ok)
 
 
         from concurrent.futures import ThreadPoolExecutor
@@ -1256,10 +1332,11 @@ def run(tier='quick', replay=None):
         log('impl done')
         fut.result()
         pool.shutdown()
-        tr_sw, sw_gen_ok = st.get('tr_sw'), st.get('sw_gen_ok', False)
+        tr_sw, sw_gen_ok = pst.get('tr_sw'), pst.get('sw_gen_ok', False)
         log('proofs done')
         items = []
         metas = {}
+        kind_bad = []
         orc = {}
         swobs = {}
         nq = 0
@@ -1275,7 +1352,7 @@ def run(tier='quick', replay=None):
             if 'switch' in c:
                 o = switch_obs(c, r)
                 swobs[i] = o
-                txt = switch_coq(i, c, o, sw_gen_ok)
+                txt = switch_coq(i, c, o, sw_gen_ok, sw_gen_ok and pst.get('loop_ok', False))
                 if txt:
                     items.append((i, txt))
                 orc[i] = switch_oracle(c, r, o, tr_sw)
@@ -1289,7 +1366,10 @@ def run(tier='quick', replay=None):
             metas[i] = meta
             if txt:
                 items.append((i, txt))
-            orc[i] = r.get('oracle', [])
+            orc[i] = list(r.get('oracle', []))
+            # kind invariant behind ode_from_mna_wf (Netlist._analysis_groups): one initial value problem iff some element has an initial condition
+            if 'flags' in r and bool(r['flags'].get('is_ivp')) != bool(c['gen']['has_ic']):
+                kind_bad.append(i)
             if 'oracle_error' in r:
                 res.count('oracle_error')
             res.count('oracle_undecided', sum(1 for b_ in orc[i] if b_.get('undecided')))
@@ -1359,7 +1439,8 @@ def run(tier='quick', replay=None):
                     else:
                         key = 'correspondence:%d:switch' % cd
                     if key not in keys_have:
-                        found.append((key, 'Coq evaluation of the switch specification: code %d' % cd, cd in (6000, 6001)))
+                        found.append((key, 'Coq evaluation of the switch specification / source-translated model: code %d' % cd, cd in (6000, 6001)))
+                        keys_have.add(key)
                 rec = {'case': c, 'lcapy': {k: results[i].get(k) for k in ('netlist', 'ics', 'ref_ics', 'times', 'after', 'before')}, 'coq_codes': cds,
                        'how': './check C02 --replay <this file>'}
             else:
@@ -1375,6 +1456,10 @@ def run(tier='quick', replay=None):
                     by_key[key] = dict(rec, key=key, what=what, found_input=found_input, replay={'case': c})
                 elif found_input and not by_key[key]['found_input']:
                     by_key[key] = dict(rec, key=key, what=what, found_input=True, replay={'case': c})
+        for i in kind_bad:
+            by_key.setdefault('correspondence:5001:is_IVP', {'key': 'correspondence:5001:is_IVP', 'found_input': False, 'case': cases[i], 'replay': {'case': cases[i]},
+                                                             'what': 'Netlist.is_IVP differs from "some element has an initial condition" (the kind invariant of ode_from_mna_wf)',
+                                                             'lcapy': results[i].get('flags')})
         violations += list(by_key.values())
         have_before = KEY_BEFORE in by_key and by_key[KEY_BEFORE]['found_input']
         for name, f, msg in res.failed_obl:
